@@ -281,3 +281,56 @@ def g7(ctx):
 def g8(ctx):
     from .c04 import b3
     return b3(ctx)
+
+
+@rule("C08", "G9", floor=20, kind="N",
+      desc="the tag names the current state: get_ctag and the readers it shares its source with keep nothing on the store object (same obligations as C04/B8)")
+def g9_rp(ctx):
+    from .c04 import reader_purity_obligations
+    return reader_purity_obligations(ctx)
+
+
+_TOTAL_ATTRS = {"decode", "encode", "hexdigest", "format", "debug", "info", "warning", "join"}
+_TOTAL_NAMES = {"str", "len", "tuple", "bytes", "repr"}
+
+
+@rule("C08", "G10", floor=5, kind="S",
+      desc="a request that fails has not moved the tag: in the git write functions nothing that can fail runs after the "
+           "last visible mutation (the commit / the release of the index lock) completed - only the result is converted "
+           "and returned.  Work appended after the commit (feeding an index, notifying) turns its own error into a 500 "
+           "for a write that has already changed ctag, sync-token and listing")
+def g10(ctx):
+    from .c01 import STORE_WRITE_API
+    F = facts(ctx)
+    obs = []
+    for cq, nm in STORE_WRITE_API:
+        if not cq.startswith(GIT + "."):
+            continue
+        fi = ctx.home_method(cq, nm)
+        cfg = ctx.cfg(fi)
+        muts = [n for n in cfg.stmt_nodes() if F.node_mutations(fi, n)]
+        if not muts:
+            raise AnalysisError("%s.%s: no visible mutation found" % (cq, nm))
+        last = [n for n in muts if not any(m is not n and m.id in cfg.after_normal(n, follow_exc=False) for m in muts)]
+        for n in last:
+            aft = cfg.after_normal(n, follow_exc=False)
+            risky = []
+            for m in cfg.stmt_nodes():
+                if m.id not in aft or m is n:
+                    continue
+                for c in m.calls():
+                    d = dotted(c.func) or ""
+                    if isinstance(c.func, ast.Attribute) and c.func.attr in _TOTAL_ATTRS:
+                        continue
+                    if d in _TOTAL_NAMES or d.startswith(("logging.", "logger.")):
+                        continue
+                    from .common import as_tuple
+                    if as_tuple(ctx, fi, m, c) is not None:
+                        continue      # construction of a record (NamedTuple / dataclass) for the result
+                    risky.append((m, c))
+            obs.append(ctx.ob(not risky, "%s.%s" % (cq, nm), "%s:%d" % (fi.module.rel, n.lineno), "nothing fallible after the last mutation",
+                              "after line %d only the result is returned" % n.lineno,
+                              "%s.%s calls `%s` (line %d) after the write has been committed: when that call raises, the request is answered "
+                              "with an error although ctag, sync-token, collection ETag and the listing have already changed"
+                              % (cq.split(".")[-1], nm, src(risky[0][1])[:60] if risky else "", risky[0][0].lineno if risky else 0)))
+    return obs
